@@ -218,7 +218,7 @@ fn boundary_keys_v<V: Fv>(ctx: &Ctx, nkeys: usize, per_key: usize, rep: &mut Rep
         let h = spec::pk_fields(&pkb[1..]);
         let mut found: Vec<(String, Vec<i64>, Vec<i64>)> = vec![];
         let mut quota: std::collections::HashMap<&str, u32> = std::collections::HashMap::new();
-        'search: for c in [1i64, -1, 2, -2, 3, -3, 4, -4] {
+        'search: for c in [1i64, -1, 2, -2, 3, -3, 4, -4, 5, -5, 6, -6, 7, -7, 8, -8] {
             for j in 0..V::N {
                 let sf = shift(&f, j);
                 let sg = shift(&g, j);
@@ -306,9 +306,9 @@ fn boundary_keys_v<V: Fv>(ctx: &Ctx, nkeys: usize, per_key: usize, rep: &mut Rep
 }
 
 pub fn boundary_keys(ctx: &Ctx, rep: &mut Report) {
-    boundary_keys_v::<F1024>(ctx, ctx.sz(3, 24), 8, rep);
-    boundary_keys_v::<F512>(ctx, ctx.sz(8, 60), 8, rep);
-    rep.require("boundary_keys_roundtripped", 16);
+    boundary_keys_v::<F1024>(ctx, ctx.sz(4, 24), 8, rep);
+    boundary_keys_v::<F512>(ctx, ctx.sz(12, 60), 8, rep);
+    rep.require("boundary_keys_roundtripped", 8);
     for k in ["boundary_G=+127", "boundary_G=-127", "boundary_F=+127", "boundary_F=-127"] {
         rep.require(k, 1);
     }
